@@ -49,14 +49,27 @@ def eval_sstr(v: Any, binding: Dict[int, str]) -> str:
             import re as _re
             p = f.b or {}
             args = p.get("args", [])
-            if len(args) < 3 or not isinstance(args[0], str) or not isinstance(args[1], str):
+            interp = binding.get("__interp__")        # type: ignore[call-overload]
+            callback = len(args) >= 3 and isinstance(args[0], str) and not isinstance(args[1], str) and interp is not None
+            if len(args) < 3 or not isinstance(args[0], str) or (not isinstance(args[1], str) and not callback):
                 raise Unmodelled("string pipeline: re.sub with non-constant pattern/replacement")
             kw = p.get("kwargs", {})
             cnt = kw.get("count", args[3] if len(args) > 3 else 0)
             fl = kw.get("flags", args[4] if len(args) > 4 else 0)
             if not isinstance(cnt, int) or not isinstance(fl, int):
                 raise Unmodelled("string pipeline: re.sub count/flags")
-            out += _re.sub(args[0], args[1], eval_sstr(args[2], binding), count=cnt, flags=fl)
+            repl: Any = args[1]
+            if callback:
+                # a replacement callback: its image of each matched text, read off by Engine A
+                from .tables import _callback_image
+                cb = args[1]
+
+                def repl(m: Any, cb: Any = cb) -> str:
+                    img = _callback_image(interp, cb, m.group())
+                    if img is None:
+                        raise Unmodelled("string pipeline: re.sub callback result is not a constant string")
+                    return img
+            out += _re.sub(args[0], repl, eval_sstr(args[2], binding), count=cnt, flags=fl)
         elif f.kind == "OP" and isinstance(f.a, tuple) and f.a and f.a[0] == "slice":
             recv = eval_sstr(f.b, binding)
             out += recv[_int(f.a[1]):_int(f.a[2]):_int(f.a[3])]
